@@ -224,6 +224,8 @@ pub fn draw_plan(rng: &mut Rng, index: u64, tier: Tier) -> ExecPlan {
         fastrand_seed: rng.next_u64(),
         yield_in_loader: rng.chance(1, 2),
         clock: Some(draw_clock(rng)),
+        // every eighth plan runs in a pristine process of its own (statics with const initialisers)
+        fresh_process: index % 8 == 1,
         tasks,
     }
 }
@@ -298,7 +300,7 @@ pub fn world_b_extra(stats: &Stats) -> Json {
         "logical_steps_unit": "shuttle context switches (scheduling decisions taken)",
         "simulated_time_note": "rsass has no clock, timer or deadline; time is reported as scheduler steps",
         "executions": stats.c.get("executions"),
-        "distinct_interleavings": stats.digests.len(),
+        "distinct_interleavings": stats.distinct(),
         "components": {
             "real": ["rsass parser, evaluator, Context, CssData, built-in function modules (hooked build, --cfg kaj_rsass_verif)", "arc_swap, fastrand (seeded per execution), nom"],
             "stub": ["std::sync::{Mutex, LazyLock, Once} inside rsass -> shuttle models via the rsass_verif_sync shim", "OS threads and scheduler -> shuttle tasks under a seeded Random/PCT scheduler", "Loader -> in-memory loader with the spec test-runner's lookup rules, optional sleep(0) scheduling point per lookup"],
@@ -363,8 +365,8 @@ impl Prop for C05 {
         world_b_extra(stats)
     }
     fn abort_needs_fresh_confirmation(&self) -> bool {
-        // shuttle drops lazy statics at the end of each execution; a reference to one of them kept
-        // in a real static would dangle in the NEXT execution of the same worker only
+        // every execution runs in a forked child of its own (exec::execute), so a worker never
+        // carries state of rsass from one execution to the next; a dying WORKER is a harness matter
         true
     }
     fn rule(&self) -> String {
